@@ -324,11 +324,12 @@ func (h *hist) wantCount(v *model.Node) (want int, lenient bool) {
 		// a list whose elements were removed one by one is a list of 0 entries
 		h.res.Ev("countfield_of_list_emptied_by_remove", 1)
 		return 0, false
-	case len(v.D) == 0 || v.HasA:
-		// an empty container, or a dictionary that once was an empty list,
-		// counts 0 or 1 depending on how it came to be
+	case len(v.D) == 0:
+		// an empty container counts 0 or 1 depending on how it came to be
 		return 0, true
 	}
+	// a dictionary with settings is one entry, also when it started as an
+	// (empty) list or lost all of its list elements
 	return 1, false
 }
 
@@ -395,6 +396,50 @@ func (h *hist) kindsAfter(before []kindObs, removed, lastName bool) {
 		h.fail("remove-changes-kind:"+which+":"+who, "%s answered IsDict=%v IsArray=%v before the removal and IsDict=%v IsArray=%v after it", o.what, o.dict, o.arr, d, a)
 		return
 	}
+}
+
+// emptyContainer finds a container without settings below t (depth 1-3) whose
+// address can be spelled as a name for the history's separator.
+func (h *hist) emptyContainer(t *handle) (string, []model.Fld, *model.Node, bool) {
+	if !t.n.IsSub() {
+		return "", nil, nil, false
+	}
+	type cand struct {
+		fs []model.Fld
+		n  *model.Node
+	}
+	var cs []cand
+	var walk func(n *model.Node, fs []model.Fld)
+	walk = func(n *model.Node, fs []model.Fld) {
+		if len(fs) > 0 && n.IsSub() && len(n.D)+len(n.A) == 0 {
+			cs = append(cs, cand{append([]model.Fld{}, fs...), n})
+			return
+		}
+		if !n.IsSub() || len(fs) >= 3 || (h.sep == "" && len(fs) >= 1) {
+			return
+		}
+		for _, k := range n.SortedKeys() {
+			if h.sep == "" || !strings.Contains(k, h.sep) {
+				walk(n.D[k], append(fs, model.Fld{Name: k}))
+			}
+		}
+		for i, v := range n.A {
+			if i <= h.maxIdx && i < 8 {
+				walk(v, append(fs, model.Fld{Idx: i, IsI: true}))
+			}
+		}
+	}
+	walk(t.n, nil)
+	if len(cs) == 0 {
+		return "", nil, nil, false
+	}
+	c := cs[h.r.Intn(len(cs))]
+	var segs []string
+	for _, f := range c.fs {
+		segs = append(segs, f.String())
+	}
+	sep := h.sep
+	return strings.Join(segs, sep), c.fs, c.n, true
 }
 
 // holderOf returns the container holding the setting addressed by fs below root.
